@@ -5,6 +5,7 @@ import (
 	"go/constant"
 	"go/token"
 	"go/types"
+	"strings"
 
 	"golang.org/x/tools/go/ssa"
 )
@@ -68,6 +69,12 @@ func runC10(c *Ctx) {
 	// ---- C10.S
 	c.Rule("C10.S", "backend Set-Cookie never passes the session writer", 5)
 	c.Rule("C10.B", "no route around the session handler; no response replayed across requests", 3)
+	c.Rule("C10.H", "what the forwarder publishes is what the session writer released: header copies in the streaming writer are guarded copies of the final header (= C03.H); the shim's handshake uses the header of the request the session handler restored (= C09.N); nothing rewrites the request's fields before the session handler (= C02.W)", 15)
+	c.Borrow(runC03, "C03.H", "C10.H", func(k string) bool { return strings.Contains(k, "streamingResponseWriter).WriteHeader") })
+	c.Borrow(runC09, "C09.N", "C10.H", func(k string) bool { return strings.HasPrefix(k, "open:") })
+	c.Borrow(runC02, "C02.W", "C10.H", func(k string) bool {
+		return strings.HasPrefix(k, "agent.forwardRequest") || strings.HasPrefix(k, "agent/sessions.")
+	})
 	ruleOnlyWrappedBy(c, p, "C10.B")
 	ruleNoResponseReplay(c, p, "C10.B", "agent", "agent/sessions", "agent/banner", "agent/websockets", "agent/utils")
 	if wh != nil {
@@ -410,7 +417,7 @@ func runC10(c *Ctx) {
 		jar := c.UniqueCall("C10.R", p, sh, false, "(*"+ModPath+"/agent/sessions.Cache).cachedCookieJar")
 		if ex != nil && jar != nil {
 			c.ArgIs("C10.R", "serve:session-id-from-own-request", p, ex, 1, "session ID extracted from this request", P(sh, 2))
-			c.Check("C10.R", "serve:jar-of-own-session", p, jar.Pos(), SameValue(Args(CallOf(jar))[1], ex.(ssa.Value)), "the jar consulted is keyed by the caller's own session cookie value", "the jar is looked up under "+PathOf(Args(CallOf(jar))[1])+", not under the caller's session ID")
+			c.Check("C10.R", "serve:jar-of-own-session", p, jar.Pos(), SameAsCallResult(Args(CallOf(jar))[1], ex.(ssa.Value)), "the jar consulted is keyed by the caller's own session cookie value", "the jar is looked up under "+PathOf(Args(CallOf(jar))[1])+", not under the caller's session ID")
 			if ck := c.UniqueCall("C10.R", p, sh, false, "(net/http.CookieJar).Cookies"); ck != nil {
 				c.PathIs("C10.R", "serve:cookies-from-that-jar", p, ck.Pos(), Args(CallOf(ck))[0], "cookies restored from the jar of this session", "result0:(*"+ModPath+"/agent/sessions.Cache).cachedCookieJar")
 				if r := c.UniqueCall("C10.R", p, sh, false, mTH()+".restoreSession"); r != nil {
@@ -421,7 +428,7 @@ func runC10(c *Ctx) {
 			as := AllocsOf(sh, T)
 			if len(as) == 1 {
 				if v, ok := LiteralField(as[0], "sessionID"); ok {
-					c.Check("C10.R", "serve:writer-session", p, as[0].Pos(), SameValue(v, ex.(ssa.Value)), "the response writer stores cookies under the caller's own session ID", "the response writer is bound to session "+PathOf(v))
+					c.Check("C10.R", "serve:writer-session", p, as[0].Pos(), SameAsCallResult(v, ex.(ssa.Value)), "the response writer stores cookies under the caller's own session ID", "the response writer is bound to session "+PathOf(v))
 				} else {
 					c.Bad("C10.R", "serve:writer-session", p, as[0].Pos(), "sessionID not set in the writer literal")
 				}
